@@ -7,11 +7,12 @@ set -u
 ID=$1; D=${2:-/tmp/mutants/$ID}
 export GOFLAGS=-mod=mod GOPROXY=off GOSUMDB=off GOTOOLCHAIN=local
 # 0. the demonstration, in the seeder's own worktree (patch applied, demo file in place)
-if [ -d /tmp/wt/$ID ]; then
-  cmd=$(grep -o 'go test[^`]*-run [A-Za-z0-9_|^$]* [./a-zA-Z0-9_]*' $D/README.md | head -1)
+WTBASE=${WTBASE:-/tmp/wt}
+if [ -d $WTBASE/$ID ]; then
+  cmd=$(grep 'go test' $D/README.md | grep -- '-run' | head -1 | sed -e 's/.*\(go test[^`]*\).*/\1/' -e 's/`.*//' -e 's/[[:space:]]*$//')
   if [ -n "$cmd" ]; then
-    (cd /tmp/wt/$ID && eval "$cmd" > /tmp/demo_$ID.with 2>&1); a=$?
-    (cd /tmp/wt/$ID && git apply -R $D/patch.diff && eval "$cmd" > /tmp/demo_$ID.without 2>&1; b=$?; git apply $D/patch.diff; exit $b); b=$?
+    (cd $WTBASE/$ID && eval "$cmd" > /tmp/demo_$ID.with 2>&1); a=$?
+    (cd $WTBASE/$ID && git apply -R $D/patch.diff && eval "$cmd" > /tmp/demo_$ID.without 2>&1; b=$?; git apply $D/patch.diff; exit $b); b=$?
     echo "demo [$cmd]: with patch rc=$a (want !=0), without rc=$b (want 0)"
   else
     echo "demo command not found in README"
